@@ -116,10 +116,11 @@ pub(crate) static UNION_NULL_LONG_DOUBLE: SchemaNode<'static> = SchemaNode::Unio
 	per_type_lookup: const_lookup([None; N_KEYS]),
 });
 
-// ---- static record node:  record R { a: long, b: ["null","long"], c: long }   (empty name table)
+// ---- static record node:  record R { a: long, b: ["long","null"], c: long }   (empty name table)
 static FIELDS_ABC: [RecordField<'static>; 3] = [
 	RecordField { name: const_string(b"a"), schema: NodeRef::from_static(&N_LONG) },
-	RecordField { name: const_string(b"b"), schema: NodeRef::from_static(&UNION_NULL_LONG) },
+	// null is deliberately NOT the first branch: an omitted field must get the null branch's real index
+	RecordField { name: const_string(b"b"), schema: NodeRef::from_static(&UNION_LONG_NULL) },
 	RecordField { name: const_string(b"c"), schema: NodeRef::from_static(&N_LONG) },
 ];
 pub(crate) static RECORD_ABC: SchemaNode<'static> = SchemaNode::Record(Record {
@@ -150,3 +151,5 @@ pub(crate) static RECORD_ANC: SchemaNode<'static> = SchemaNode::Record(Record {
 	name: anon_name(),
 	per_name_lookup: empty_map(),
 });
+
+pub(crate) static ARRAY_OF_LONG: SchemaNode<'static> = SchemaNode::Array(NodeRef::from_static(&N_LONG));
